@@ -119,7 +119,13 @@ func (e *Engine) visitInstr(fr *frame, instr ssa.Instruction) (ret bool) {
 		fr.env[instr] = e.binop(fr, instr.Op, instr.X.Type(), fr.get(instr.X), fr.get(instr.Y))
 	case *ssa.Call:
 		fn, args := e.prepareCall(fr, &instr.Call)
-		fr.env[instr] = e.call(fr, instr.Pos(), fn, args)
+		if fr.fn.Synthetic == "package initializer" {
+			// one initialiser the engine cannot run must not take the rest of the
+			// package's globals with it: its result becomes opaque.
+			fr.env[instr] = e.protectedInitCall(fr, instr, fn, args)
+		} else {
+			fr.env[instr] = e.call(fr, instr.Pos(), fn, args)
+		}
 	case *ssa.ChangeInterface:
 		fr.env[instr] = fr.get(instr.X)
 	case *ssa.ChangeType:
@@ -257,7 +263,7 @@ func (e *Engine) visitInstr(fr *frame, instr ssa.Instruction) (ret bool) {
 		fr.env[instr] = s[:lenV]
 	case *ssa.MakeMap:
 		m := newMap(instr.Type().Underlying().(*types.Map).Key())
-		m.Nondet = e.mapNondet
+		m.Nondet = e.mapNondet && e.inInit == 0
 		fr.env[instr] = m
 	case *ssa.Range:
 		fr.env[instr] = e.rangeIter(fr, fr.get(instr.X), instr.X.Type())
@@ -407,6 +413,10 @@ func (e *Engine) call(caller *frame, callpos token.Pos, fn Value, args []Value) 
 	case *nativeFn:
 		return fn.f(e, caller, args)
 	case Opaque:
+		if e.inInit > 0 {
+			// inside a package initialiser an unsupported callee only poisons its results
+			return Opaque{"result of opaque call: " + fn.Why}
+		}
 		e.unsupported("call of opaque function: " + fn.Why)
 	}
 	panic(fmt.Sprintf("cannot call %T", fn))
@@ -623,6 +633,22 @@ func isStdlib(path string) bool {
 	return !strings.Contains(first, ".")
 }
 
+// noInitPkg lists third-party packages whose initialisers are reflection- and
+// unsafe-heavy registries (protobuf, grpc, xds types, metrics exporters) that no
+// kernel reads: their globals stay zero.
+func noInitPkg(path string) bool {
+	for _, p := range []string{"google.golang.org/protobuf", "github.com/golang/protobuf", "github.com/envoyproxy", "github.com/cncf",
+		"google.golang.org/grpc", "google.golang.org/genproto", "k8s.io/", "istio.io/", "github.com/gogo/protobuf", "go.opencensus.io",
+		"github.com/prometheus", "github.com/json-iterator", "github.com/modern-go", "net/http", "crypto/", "golang.org/x/net/http2", "github.com/valyala/fasthttp",
+		"github.com/SkyAPM", "github.com/alibaba/sentinel-golang", "github.com/opentracing", "github.com/uber", "go.uber.org/zap", "github.com/nacos-group",
+		"gopkg.in/", "github.com/ghodss/yaml", "github.com/go-resty", "github.com/hashicorp", "github.com/miekg", "vimagination.zapto.org", "github.com/dubbogo", "github.com/google/cel-go", "github.com/antlr", "github.com/apache/dubbo-go-hessian2"} {
+		if strings.HasPrefix(path, p) {
+			return true
+		}
+	}
+	return false
+}
+
 func (e *Engine) globalAddr(g *ssa.Global) *Value {
 	if p, ok := e.globals[g]; ok {
 		return p
@@ -638,7 +664,7 @@ func (e *Engine) globalAddr(g *ssa.Global) *Value {
 			}
 		}
 	}
-	if e.pkgInit[pkg] == 0 && !e.stubPkgs[path] {
+	if e.pkgInit[pkg] == 0 && !e.stubPkgs[path] && !noInitPkg(path) {
 		e.pkgInit[pkg] = 1
 		e.initPackage(pkg)
 		e.pkgInit[pkg] = 2
@@ -673,14 +699,28 @@ func (e *Engine) initPackage(pkg *ssa.Package) {
 	}
 	saveNoPanic := e.noPanic
 	e.noPanic = false
-	defer func() { e.noPanic = saveNoPanic }()
+	e.inInit++
+	saveDepth := e.depth
+	defer func() { e.noPanic = saveNoPanic; e.inInit--; e.depth = saveDepth }()
 	func() {
 		defer func() {
 			if r := recover(); r != nil {
+				// An initialiser the engine cannot run to the end leaves the
+				// remaining globals of that package zero; this is recorded (evidence:
+				// incomplete_inits) and only matters if the kernel reads them.
 				switch p := r.(type) {
 				case targetPanic:
-					e.notes = append(e.notes, "init of "+pkg.Pkg.Path()+" panicked: "+p.String())
-					panic(pathEnd{"unsupported", "package init panicked: " + pkg.Pkg.Path() + ": " + p.String()})
+					e.stubsUsed["incomplete-init:"+pkg.Pkg.Path()+": "+p.String()] = true
+				case pathEnd:
+					if p.kind != "unsupported" {
+						panic(r)
+					}
+					e.stubsUsed["incomplete-init:"+pkg.Pkg.Path()+": "+p.msg] = true
+				case string:
+					if strings.HasPrefix(p, "engine bug") || e.cfg.Trace {
+						panic(r)
+					}
+					e.stubsUsed["incomplete-init:"+pkg.Pkg.Path()+": "+p] = true
 				default:
 					panic(r)
 				}
@@ -688,4 +728,33 @@ func (e *Engine) initPackage(pkg *ssa.Package) {
 		}()
 		e.callFunction(nil, init, nil, nil)
 	}()
+}
+
+func (e *Engine) protectedInitCall(fr *frame, instr *ssa.Call, fn Value, args []Value) (res Value) {
+	saveDepth := e.depth
+	defer func() {
+		if r := recover(); r != nil {
+			why := ""
+			switch p := r.(type) {
+			case targetPanic:
+				why = p.String()
+			case pathEnd:
+				if p.kind != "unsupported" {
+					panic(r)
+				}
+				why = p.msg
+			case string:
+				if strings.HasPrefix(p, "engine bug") || e.cfg.Trace {
+					panic(r)
+				}
+				why = p
+			default:
+				panic(r)
+			}
+			e.depth = saveDepth
+			e.stubsUsed["incomplete-init:"+fr.fn.Pkg.Pkg.Path()+": "+instr.String()+": "+why] = true
+			res = e.opaqueResults(instr.Call.Signature(), "failed initialiser: "+why)
+		}
+	}()
+	return e.call(fr, instr.Pos(), fn, args)
 }
